@@ -233,15 +233,25 @@ def rule_body_text(ctx, file, s):
         return re.sub(pat, f, s, flags=flags)
     s = sub("R-assert", r"assert_eq!\(([^,;]+), ([^;]+?)\);", r"runtime_assert(\1 == \2);", s)
     s = sub("R-split", r"(\w+)\.split\('(.)'\)\.collect::<Vec<_>>\(\)", r"str_split_char(\1, '\2')", s)
+    s = sub("R-split", r"(let (?:mut )?\w+\s*:\s*Vec<&str>\s*=\s*)(\w+)\.split\('(.)'\)\.collect\(\)", r"\1str_split_char(\2, '\3')", s)
     s = sub("R-add", r"\((\w+KeySeparator::default\(\)) \+ (&?\w+)\)", r"(std::ops::Add::add(\1, \2))", s)
     # R-constclosure: `|_| Enum::Variant` (argument ignored, unit-variant body) gets the ensures it trivially satisfies
     s = sub("R-constclosure", r"\|_\|\s*(\w+)::(\w+)\s*\)", r"|_e| -> (__r: \1) ensures __r is \2 { \1::\2 })", s)
     s = sub("R-underscore", r"\|_\|", "|_e|", s)
     # R-serjson: the serialize-to-bytes-then-parse idiom of GenericBuilder::set_claim -> one shim call (assumed to yield value.json())
-    s = sub("R-serjson", r"let mut (\w+) = Vec::new\(\);\s*let mut (\w+) = serde_json::Serializer::new\(&mut \1\);\s*erased_serde::serialize\(&(\w+), &mut \2\)\.unwrap\(\);\s*let (\w+): serde_json::Value = serde_json::from_slice\(&\1\)\.unwrap\(\);",
+    s = sub("R-serjson", r"let mut (\w+)(?:\s*:\s*Vec<u8>)? = Vec::new\(\);\s*let mut (\w+) = serde_json::Serializer::new\(&mut \1\);\s*erased_serde::serialize\(&(\w+), &mut \2\)\.unwrap\(\);\s*let (\w+)(?:\s*:\s*(?:serde_json::)?Value)? = serde_json::from_slice\(&\1\)\.unwrap\(\);",
             r"let \4: serde_json::Value = erased_serde::to_json_via_bytes(&\3);", s)
     # R-jsonindex: `j[&k]` on a local serde_json::Value -> the shim call with serde_json's Index semantics (Null when absent)
-    s = sub("R-jsonindex", r"(?<![\w.])(json|raw)\[&(\w+)\]", r"(*serde_json::value_index(&\1, &\2))", s)
+    # (the locals holding a serde_json::Value: declared with that type, or bound to to_value / from_str / a claim's to_json)
+    vnames = set(["json", "raw"]) | set(re.findall(r"let (?:mut )?(\w+)\s*:\s*(?:serde_json::)?Value\b", s)) | set(re.findall(r"let (?:mut )?(\w+) = (?:serde_json::)?(?:to_value|from_str)\b", s))
+    s = sub("R-jsonindex", r"(?<![\w.])(%s)\[&(\w+)\]" % "|".join(sorted(map(re.escape, vnames))), r"(*serde_json::value_index(&\1, &\2))", s)
+    # locals bound to such an index expression are &Value: their (in)equality is serde_json's PartialEq, i.e. value_eq
+    rnames = set(re.findall(r"let (\w+) = &\(\*serde_json::value_index\(", s))
+    if rnames:
+        alt = "|".join(sorted(map(re.escape, rnames)))
+        s = sub("R-jsoncmp", r"(?<![\w.])(%s) != (%s)(?![\w.(])" % (alt, alt), r"!serde_json::value_eq(\1, \2)", s)
+        s = sub("R-jsoncmp", r"(?<![\w.])(%s) == (%s)(?![\w.(])" % (alt, alt), r"serde_json::value_eq(\1, \2)", s)
+        s = sub("R-jsoncmp", r"\*(%s) == (Value::Null)" % alt, r"serde_json::value_eq(\1, &\2)", s)
     VI = r"\(\*serde_json::value_index\([^()]*\)\)"
     s = sub("R-jsoncmp", r"(%s) == (Value::Null)" % VI, r"serde_json::value_eq(&\1, &\2)", s)
     s = sub("R-jsoncmp", r"(%s) != (%s)" % (VI, VI), r"!serde_json::value_eq(&\1, &\2)", s)
